@@ -8,7 +8,7 @@ GR(id, fam, reg) == [id |-> id, fam |-> fam, phantom |-> id, registrant |-> reg,
 GenRegs == {GR("a", "v4", "v4"), GR("b", "v6", "v6")}
 GenInit == Init /\ hist = <<>>
 GenNext == /\ Len(hist) < Depth
-           /\ (\E r \in Regs : Validate(r) \/ Activate(r) \/ Duplicate(r)) \/ (\E d \in TickSteps : TickBy(d))
+           /\ (\E r \in Regs : Validate(r) \/ Activate(r) \/ Duplicate(r)) \/ (\E d \in TickSteps : TickBy(d)) \/ Packets \/ Crash \/ Shutdown
            /\ hist' = Append(hist, [a |-> obs'.a, id |-> IF "id" \in DOMAIN obs' THEN obs'.id ELSE "-",
                                      op |-> IF obs'.a = "Publish" THEN obs'.msg.op ELSE "-", d |-> IF obs'.a = "Tick" THEN obs'.d ELSE 0])
 GenSpec == GenInit /\ [][GenNext]_<<vars, hist>>
